@@ -21,7 +21,12 @@ def run(c: Check):
     out, _ = c.go_harness("internal/dnsserver/forward", "^TestVerifC17$", rewrites=ov, files=["c17_test.go"],
                           env={"VERIF_IN": inp, "VERIF_NRANDOM": 3000 if th else 300})
     ev = read_ndjson(out)
+    out2, _ = c.go_harness("internal/dnsserver/forward", "^TestVerifC17Exchange$", files=["c17b_test.go"], timeout=1800)
+    ev_x = read_ndjson(out2)
     fails = c.validate_segments("TraceForward", "TraceForward.cfg", ev, timeout=1800)
+    fails += c.validate_segments("TraceForward", "TraceForward.cfg", ev_x, is_reset=lambda e: True, max_fail=10, timeout=1800)
+    for e in ev_x:
+        c.count_case(("exchange", e["net"], e["udp"], e["tcp"]), nontrivial=e["udp"] != "valid")
     nq = nfb = nerr = nrec = 0
     for e in ev:
         if e["ev"] == "Query":
@@ -37,12 +42,12 @@ def run(c: Check):
     c.sample([e for e in ev if e["ev"] in ("Probe", "RefreshEnd", "Query")][:10])
     for sg, idx, reason in fails:
         e = sg[idx]
-        recent = [{k: x[k] for k in ("ev", "u", "h", "ok", "active", "tried", "by") if x.get(k) not in ("", [], None, False) or k == "ev"}
+        recent = [{k: x.get(k) for k in ("ev", "u", "h", "ok", "active", "tried", "by") if x.get(k) not in ("", [], None, False) or k == "ev"}
                   for x in sg[max(1, idx - 14):idx + 1]]
         c.violation({"kind": "trace-rejected", "ev": e["ev"], "reason": reason.split()[0]},
-                    "C17 %s at event %s (mains %s, fallbacks %s, back-off %s ticks); recent: %s" % (
-                        reason, json.dumps({k: e[k] for k in ("ev", "u", "ok", "active", "tried", "by", "rcode")}),
-                        sg[0]["main"], sg[0]["fall"], sg[0]["backoff"], json.dumps(recent)),
+                    "C17 %s at event %s (mains %s, fallbacks %s, back-off %s ticks, start-up probe %s); recent: %s" % (
+                        reason, json.dumps({k: e.get(k) for k in ("ev", "u", "ok", "active", "tried", "by", "rcode", "net", "udp", "tcp", "got")}),
+                        sg[0].get("main"), sg[0].get("fall"), sg[0].get("backoff"), sg[0].get("init"), json.dumps(recent)),
                     {"segment": sg[:idx + 1], "reason": reason})
     c.assumptions += ["upstreams are scripted at the forward.Upstream interface; reply validation of the plain upstream "
                       "client is exercised by C06's upstream paths",
